@@ -16,7 +16,7 @@ import (
 func TestVerif_C33(t *testing.T) {
 	r := verifrt.Start(t, "C33")
 	defer r.Finish()
-	r.Rule("case = one departure (graceful stop with snapshot push, or abrupt crash) of a node hosting 5-40 harness actors (plain, role-constrained incl. a role nobody else advertises, singletons, non-relocatable, parents with (never relocatable) children, kinds registered nowhere, PreStart failing permanently/transiently on targets) in a cluster of 4+ real actor systems (real remoting, shared linearizable fake registry, node 0 leads), driven by one of 16 fault scripts: 1-4 departure notifications to the leader (queued back to back / while the relocation worker is held at its peer listing, its load scan, a target's registry read or a target's PreStart / after completion), followers notified before, during or after, a survivor the worker already listed crashed before its batch, registry failures at one peer or at the leader, the worker unable to list peers (abort path), leadership moved to another node mid-relocation (with or without its own snapshot copy). Judged at structural quiescence (no job registered on any node, no worker alive, no registry operation in flight; every notification proven handled by a marker pushed through the same events loop; every Rebalance order proven turned into a worker by a relocator probe). oracle: relocatable(departed) = runningOnExactlyOneSurvivor (process-wide PreStart/PostStop gauge, cross-checked against the survivors' actor trees) disjoint-union namesListedInRelocationFailed; at most one RelocationFailed event per leader node and departure; no second relocation worker while the first is provably in flight (held by the harness with the job registered); no non-relocatable actor recreated; nothing foreign listed. non-trivial = a relocation worker ran and the script's hold point / duplicates-while-job-registered / injected fault / listed failures were measured; distinct by script, population and seed")
+	r.Rule("case = one departure (graceful stop with snapshot push, or abrupt crash) of a node hosting 5-40 harness actors (plain, role-constrained incl. a role nobody else advertises, singletons, non-relocatable, parents with (never relocatable) children, kinds registered nowhere, PreStart failing permanently/transiently on targets) in a cluster of 4+ real actor systems (real remoting, shared linearizable fake registry, node 0 leads), driven by one of 17 fault scripts: 1-4 departure notifications to the leader (queued back to back / while the relocation worker is held at its peer listing, its load scan, a target's registry read or a target's PreStart / after completion), followers notified before, during or after, a survivor the worker already listed crashed before its batch, registry failures at one peer or at the leader, the worker unable to list peers (abort path), leadership moved to another node mid-relocation (with or without its own snapshot copy), the departing node also hosting grains so that a share spans an actor batch and a grain batch while one target stalls in its actor batch, dies, answers it with per-item failures and refuses the grain batch. Judged at structural quiescence (no job registered on any node, no worker alive, no registry operation in flight; every notification proven handled by a marker pushed through the same events loop; every Rebalance order proven turned into a worker by a relocator probe). oracle: relocatable(departed) = runningOnExactlyOneSurvivor (process-wide PreStart/PostStop gauge, cross-checked against the survivors' actor trees) disjoint-union namesListedInRelocationFailed; at most one RelocationFailed event per leader node and departure; no second relocation worker while the first is provably in flight (held by the harness with the job registered); no non-relocatable actor recreated; nothing foreign listed. non-trivial = a relocation worker ran and the script's hold point / duplicates-while-job-registered / injected fault / listed failures were measured; distinct by script, population and seed")
 	r.Assume("the registry is linearizable per key (one mutex in the fake); an injected registry failure leaves the store untouched")
 	r.Assume("queued duplicates of a crash notification race asynchronous registry derivations that the harness cannot order against the first relocation's end, so for that one script only name conservation is demanded (several sequential relocations/events are tolerated)")
 	r.Assume("leadership moved by the harness while the old leader is alive: uniqueness of worker and RelocationFailed event is demanded per leader node, name conservation cluster-wide; the new leader's relocation is let run to its end before the old leader's held worker is released")
@@ -29,7 +29,7 @@ func TestVerif_C33(t *testing.T) {
 	for i := 0; i < 400; i++ {
 		opts = append(opts, vfcWithRoles(i, c33RolesFor(i)...))
 	}
-	opts = append(opts, vfcWithKinds(&C33Actor{}))
+	opts = append(opts, vfcWithKinds(&C33Actor{}), vfcWithGrains(&C33Grain{}))
 	t0 := time.Now()
 	cl := vfcNewCluster(t, 4, opts...)
 	r.Count("millis:cluster-start", time.Since(t0).Milliseconds())
